@@ -708,7 +708,8 @@ type hbtWriter struct {
 	armed   int32
 	held    chan struct{}
 	release chan struct{}
-	done    int32 // heartbeat notifications whose write has returned
+	done    int32       // heartbeat notifications whose write has returned
+	rets    []time.Time // per recorded notification: when its write returned (zero while it is being written)
 }
 
 func newHbtWriter() *hbtWriter {
@@ -744,7 +745,14 @@ func (w *hbtWriter) WriteShipMessageWithPayload(m []byte) {
 	n.src, n.dst = h.AddrS(d.Datagram.Header.AddressSource), h.AddrS(d.Datagram.Header.AddressDestination)
 	w.mu.Lock()
 	w.notes = append(w.notes, n)
+	w.rets = append(w.rets, time.Time{})
+	idx := len(w.rets) - 1
 	w.mu.Unlock()
+	defer func() {
+		w.mu.Lock()
+		w.rets[idx] = time.Now()
+		w.mu.Unlock()
+	}()
 	if w.slow > 0 {
 		time.Sleep(w.slow)
 	}
@@ -1127,6 +1135,10 @@ func hbtRealtime(T time.Duration, ticks int, attach bool, script []string, slow 
 	}
 	// judge a sequence of refresh instants against the windows
 	var gapsAll []time.Duration
+	// notifications are written one subscriber after the other inside SetData: behind a subscriber whose connection
+	// takes `slow` per write a notification ARRIVES up to `slow` after its refresh began (the gaps between arrivals
+	// are not affected). Zero for the feature's own data.
+	arrivalLag := time.Duration(0)
 	judge := func(who string, times []time.Time, ctrs []uint64, wdws []window, collect bool) {
 		for _, wd := range wdws {
 			var in []int
@@ -1135,7 +1147,7 @@ func hbtRealtime(T time.Duration, ticks int, attach bool, script []string, slow 
 					in = append(in, i)
 				}
 			}
-			if lim := T + slack + 2*rtLate(wd.from, wd.from.Add(T+slack)); len(in) == 0 || times[in[0]].Sub(wd.from) > lim {
+			if lim := T + slack + arrivalLag + 2*rtLate(wd.from, wd.from.Add(T+slack)); len(in) == 0 || times[in[0]].Sub(wd.from) > lim {
 				rtFail(wd.from, wd.from.Add(lim), "C16/period-exceeds-timeout", fmt.Sprintf("%s: no refresh within %v after operation %d (%s) returned", who, lim, wd.n, wd.after))
 				continue
 			}
@@ -1253,7 +1265,9 @@ func hbtRealtime(T time.Duration, ticks int, attach bool, script []string, slow 
 				early = append(early, wd)
 			}
 		}
+		arrivalLag = slow
 		judge(who, nt, nc, early, false)
+		arrivalLag = 0
 		final(who, nt, 0)
 	}
 	sort.Slice(gaps, func(i, j int) bool { return gaps[i] < gaps[j] })
@@ -1366,6 +1380,85 @@ func hbtHeld(T time.Duration) (fails [][2]string) {
 	if w.hm.IsHeartbeatRunning() {
 		fail("C16/is-running-wrong", "IsHeartbeatRunning = true after StopHeartbeat")
 	}
+	return
+}
+
+// hbtStale: "carrying ... a current timestamp" behind a back-pressured subscriber. The write of ONE heartbeat
+// notification is held for `hold` (more than a period plus the resolution of the timestamp text, 1 s), then released;
+// the following refreshes are inspected. The loop of the stream is sequential: the refresh behind notification k began
+// after the write of notification k-1 returned (SetData notifies synchronously). SPEC (key timestamp-not-current),
+// all instants on the harness clock, zone-free: the instant the timestamp text of notification k denotes (read by the
+// harness's own reader) lies within [return of write k-1 - 1 s, arrival of notification k + 1 s]. A machine that
+// stalls only moves both ends: the judgement does not depend on load. (A stream that takes the value of the ticker's
+// channel - the instant the tick was DUE, one period after the held refresh began - is stale by hold - period here;
+// on an undisturbed heartbeat it cannot be told from the clock.)
+func hbtStale(T, hold time.Duration) (fails [][2]string, desc string, ageAfterHold time.Duration, announced time.Duration) {
+	what := fmt.Sprintf("timeout %v, the write of one notification held for %v", T, hold)
+	fail := func(key, detail string) { fails = append(fails, [2]string{key, what + ": " + detail}) }
+	id := atomic.AddInt64(&hbtWorldSeq, 1)
+	w := newHbtWorld(T, true)
+	wr := newHbtWriter()
+	hbtSubscribe(w, fmt.Sprintf("hbt%d-s", id), "devs", wr)
+	if pan := h.Recover(func() { w.f.AddFunctionType(model.FunctionTypeDeviceDiagnosisHeartbeatData, true, false) }); pan != nil {
+		fail("C16/panic-sequential", fmt.Sprintf("AddFunctionType(heartbeat) panicked: %v", pan))
+		return
+	}
+	defer w.hm.StopHeartbeat()
+	// let one ordinary refresh pass, hold the next one
+	for t0 := time.Now(); wr.count() < 1 && time.Since(t0) < T+5*time.Second; {
+		time.Sleep(time.Millisecond)
+	}
+	atomic.StoreInt32(&wr.armed, 1)
+	select {
+	case <-wr.held:
+	case <-time.After(T + 5*time.Second):
+		atomic.StoreInt32(&wr.armed, 0)
+		fail("C16/period-exceeds-timeout", "no refresh arrived at the subscriber to be held")
+		return
+	}
+	heldIdx := wr.count() - 1
+	time.Sleep(hold)
+	wr.release <- struct{}{}
+	// the next three refreshes
+	for t0 := time.Now(); wr.count() < heldIdx+4 && time.Since(t0) < 4*T+5*time.Second; {
+		time.Sleep(time.Millisecond)
+	}
+	time.Sleep(5 * time.Millisecond)
+	w.hm.StopHeartbeat()
+	wr.mu.Lock()
+	notes := append([]hbtNote{}, wr.notes...)
+	rets := append([]time.Time{}, wr.rets...)
+	wr.mu.Unlock()
+	if len(notes) < heldIdx+2 {
+		fail("C16/period-exceeds-timeout", fmt.Sprintf("no refresh was notified within %v after the held write was released", 4*T+5*time.Second))
+		return
+	}
+	var ages []string
+	for k := 1; k < len(notes); k++ {
+		n := notes[k]
+		if !n.tsOwnOk || rets[k-1].IsZero() {
+			if !n.tsOwnOk {
+				fail("C16/timestamp-not-current", fmt.Sprintf("counter %d carries the timestamp text %q, which the harness cannot read", n.ctr, n.tsRaw))
+			}
+			continue
+		}
+		lo, hi := rets[k-1].Add(-time.Second), n.t.Add(time.Second)
+		if k-1 == heldIdx {
+			// how far the denoted instant lies before the earliest instant at which this refresh can have begun
+			ageAfterHold, announced = rets[k-1].Sub(n.tsOwn), n.timeout
+		}
+		if k > heldIdx {
+			ages = append(ages, fmt.Sprintf("%d:%v", n.ctr, n.t.Sub(n.tsOwn).Round(10*time.Millisecond)))
+		}
+		if n.tsOwn.Before(lo) || n.tsOwn.After(hi) {
+			after := ""
+			if k-1 == heldIdx {
+				after = fmt.Sprintf(" (the refresh that follows the one held up for %v)", hold)
+			}
+			fail("C16/timestamp-not-current", fmt.Sprintf("counter %d%s carries the timestamp text %q = %v UTC; the refresh began after the previous notification had been written at %v UTC and was notified at %v UTC: the timestamp is %v older than the earliest instant at which this refresh can have begun (resolution of the text: 1 s)", n.ctr, after, n.tsRaw, n.tsOwn.UTC().Format("15:04:05.000"), rets[k-1].UTC().Format("15:04:05.000"), n.t.UTC().Format("15:04:05.000"), rets[k-1].Sub(n.tsOwn).Round(10*time.Millisecond)))
+		}
+	}
+	desc = fmt.Sprintf("%s: %d notifications, the one held was number %d; age of the timestamp at arrival of the following ones (counter:age) %v", what, len(notes), heldIdx+1, ages)
 	return
 }
 
@@ -1677,6 +1770,22 @@ func TestHeartbeat(t *testing.T) {
 			}
 			return
 		}
+		if len(ops) > 0 && strings.HasPrefix(ops[0], "stale ") {
+			// stale <timeout ms> <hold ms>
+			f := strings.Fields(ops[0])
+			ms, _ := strconv.Atoi(f[1])
+			hold, _ := strconv.Atoi(f[2])
+			fails, desc, _, _ := hbtStale(time.Duration(ms)*time.Millisecond, time.Duration(hold)*time.Millisecond)
+			r.Eval("stale-after-hold", "")
+			for _, f := range fails {
+				r.SpecFail(f[0], ops, f[1])
+			}
+			if len(fails) == 0 {
+				r.Traces++
+			}
+			r.Sample(desc)
+			return
+		}
 		if len(ops) > 0 && strings.HasPrefix(ops[0], "held ") {
 			ms, _ := strconv.Atoi(strings.Fields(ops[0])[1])
 			fails := hbtHeld(time.Duration(ms) * time.Millisecond)
@@ -1836,6 +1945,41 @@ func TestHeartbeat(t *testing.T) {
 				r.Traces++
 			}
 		}(ps)
+	}
+	// one notification write held for a period plus more than two seconds, the following refreshes inspected
+	stales := [][2]int{{400, 2600}, {1000, 3300}}
+	if h.Tier() == "thorough" {
+		stales = append(stales, [2]int{200, 2500}, [2]int{2300, 2700}, [2]int{700, 4000})
+	}
+	for _, sh := range stales {
+		wg.Add(1)
+		go func(ms, hold int) {
+			defer wg.Done()
+			fails, desc, age, announced := hbtStale(time.Duration(ms)*time.Millisecond, time.Duration(hold)*time.Millisecond)
+			bmu.Lock()
+			defer bmu.Unlock()
+			descs = append(descs, desc)
+			r.Eval("stale-after-hold", "")
+			op := []string{fmt.Sprintf("stale %d %d", ms, hold)}
+			for _, f := range fails {
+				r.SpecFail(f[0], op, f[1])
+			}
+			// tie to Spine.HBS.reading (member `clock`: the clock is read inside the refresh - the regenerated fact of
+			// Props/C16Gen): how far the reading of the refresh after the hold-up lies before its begin, in the model
+			// (refresh 1 held for `hold`, period of the announced timeout); the text has a resolution of 1 s
+			if len(fails) == 0 && announced > 0 {
+				dop := fmt.Sprintf("stale clock %d %d", announced.Milliseconds(), hold)
+				want, err := strconv.Atoi(d.Ask(dop))
+				if err != nil {
+					r.Mismatch(append(op, dop), "-", "bad-op", "driver answer")
+				} else if age > time.Duration(want)*time.Millisecond+time.Second {
+					r.Mismatch(append(op, dop), fmt.Sprintf("the timestamp of the refresh after the hold-up lies %v before the return of the held write", age), fmt.Sprintf("%d ms", want), "age of the reading of the refresh that follows a held one (Spine.HBS.reading, source clock)")
+				}
+			}
+			if len(fails) == 0 {
+				r.Traces++
+			}
+		}(sh[0], sh[1])
 	}
 	for _, p := range plan {
 		wg.Add(1)
